@@ -953,6 +953,8 @@ impl<T: ArrayValue> Array<T> {
             match ctx.scalar_fill::<T>() {
                 Ok(fill) => {
                     let new_shape = max_shape(&self.shape, &other.shape);
+                    validate_size_of::<T>(new_shape.iter().copied().chain([2]))
+                        .map_err(|e| ctx.error(e))?;
                     self.fill_to_shape(&new_shape, fill.clone());
                     other.fill_to_shape(&new_shape, fill);
                 }
